@@ -101,6 +101,16 @@ def run(ctx):
     o6b(ctx, F)
     o8(ctx, F, roles["search"])
     o7(ctx, F)
+    # "exactly one bestmove ... at the depth limit", "neither panics nor deadlocks": the search a `go` starts must end by itself
+    # at its limit and its driver must not panic or spin - the driver rules of C08 are necessary conditions here
+    from . import p08
+    before, nv = len(ctx.instances), len(ctx.violations)
+    p08.run(ctx)
+    for i in ctx.instances[before:]:
+        i["rule"] = "C14.O9(" + i["rule"] + ")"
+    for v in ctx.violations[nv:]:
+        v["rule"] = "C14.O9(" + v["rule"] + ")"
+        v["key"] = "C14.O9|" + v["key"]
 
 
 def count_paths(cfg, hits):
@@ -200,6 +210,25 @@ def o1_o2(ctx, F, sfn):
               what="the flag cleared at the end of the search must be the one handed to the search", found=same)
 
 
+def flag_raised_only_by_go(ctx, F, rule):
+    """Who may raise a running flag: `command_go` (before its threads exist) and nobody else.  A `store(true)` anywhere else - in
+    the search thread, in a guard object, in the driver - can come after the timer's or `stop`'s `store(false)` and overwrite it:
+    the search is then never stopped.  Any value that is not the literal `false` counts as a possible raise."""
+    sites = []
+    for p, fn in sorted(F.fns.items()):
+        if not fn.get("mir"):
+            continue
+        for b, v, r, t in stores(mir.Cfg(fn)):
+            if v != 0:
+                sites.append((p, mir.span_line(t), v))
+    bad = [x for x in sites if x[0] != GO]
+    ctx.check(rule, "flag-raised-only-by-command_go", not bad and any(x[0] == GO for x in sites), fn=bad[0][0] if bad else GO,
+              file=F.fns[bad[0][0]]["file"] if bad else F.fn(GO)["file"], line=bad[0][1] if bad else None,
+              what="a running flag is set to true outside command_go: a `stop` or the timer's clear that came first is overwritten and "
+                   "nobody ever stops the search (thinking time exceeded, no bestmove)",
+              expected="store(true) only in uci::command_go, before the timer and search threads exist", found=sites)
+
+
 def o3_o6(ctx, F, roles):
     fn = F.fn(GO)
     cfg = mir.Cfg(fn)
@@ -214,6 +243,7 @@ def o3_o6(ctx, F, roles):
                    "can come first, the later store(true) wins and nobody ever stops the search (no bestmove, session wedged)",
               expected="store(true) dominates thread::spawn(timer closure)",
               found={"store(true) lines": [mir.span_line(r[3]) for r in raises], "timer spawn lines": [mir.span_line(t[2]) for t in timer]})
+    flag_raised_only_by_go(ctx, F, "C14.O3")
     ok2 = bool(raises) and bool(search) and all(any(cfg.dominates(r[0], t[0]) for r in raises) for t in search)
     ctx.check("C14.O3", "flag-raised-before-search-thread-exists", ok2, fn=GO, file=fn["file"],
               what="the flag must be raised before the search thread can clear it", found=ok2)
